@@ -55,7 +55,8 @@ def shapes_for(tier, rng, quick_alpha=(0, 1, 3), maxrows=4):
     # sizes beyond any plausible shortcut threshold or block size: many rows, one very long row, lengths around powers of two
     if not LIGHT[0]:
         sh.append([(i * 7) % 5 for i in range(300)])
-        sh.append([1200, 0, 3])
+        sh.append([2600, 0, 3])                                        # more than 2048 elements in all
+        sh.append([1 + (i % 3) for i in range(400)] + [250])           # skewed: the padded matrix is ~100 times the data
         sh.append([64, 63, 65, 0, 128, 1, 256])
         sh.append([1] * 1030)
         if tier == "thorough": sh.append([(i * 11) % 9 for i in range(2100)]); sh.append([4097, 4096])
@@ -348,7 +349,8 @@ def run_c05(R, tier, rng):
                     f = getattr(np, meth)
                     # one entry per non-empty row, in row order (DESIGN 4.5)
                     for axis in (-1, 1):
-                        C.cmp(f"{meth} axis={axis} {dt} {ls}", meth, nt, lambda: [int(v) for v in getattr(mk(), meth)(axis=axis)], lambda: [int(f(rows[i])) for i in ne],
+                        # positions are numpy's own index type (intp), whatever the library's row-index width is
+                        C.cmp(f"{meth} axis={axis} {dt} {ls}", meth, nt, lambda: (lambda r_: [[int(v) for v in r_], str(np.asarray(r_).dtype)])(getattr(mk(), meth)(axis=axis)), lambda: [[int(f(rows[i])) for i in ne], "int64"],
                               py=f"RaggedArray({X}, dtype='{dt}').{meth}(axis={axis})")
 
 
@@ -363,7 +365,8 @@ def run_c07(R, tier, rng):
     allk = ["bool", "int8", "int32", "int64", "uint8", "uint64", "float32", "float64"]
     EXT = dict(VALS); EXT["float32"] = [1e16, 1.0, 0.1, -1e16, 0.5, 1.0]; EXT["float64"] = [1e16, 1.0, 0.1, -1e16, 0.5, 1.0]
     # skewed shapes (many short or empty rows next to a long one) with floats that an offset-and-subtract scheme would not survive
-    for ls in ([2] + [0] * 8 + [2, 1], [16, 2, 1, 1, 1, 1], [1, 0, 0, 0, 0, 0, 3], [0] * 6 + [5], [12] + [1] * 9):
+    for ls in ([2] + [0] * 8 + [2, 1], [16, 2, 1, 1, 1, 1], [1, 0, 0, 0, 0, 0, 3], [0] * 6 + [5], [12] + [1] * 9,
+               [1 + (i % 3) for i in range(400)] + [250], [300] + [i % 2 for i in range(700)], [2] * 90 + [2000]):      # the last three: a padded matrix of 10^5 and more cells for ~10^3 elements
         for dt in ("float64", "float32"):
             for vals in ([float("inf"), 1.0, 0.1, 2.0, 0.3], [1e17, 1.0, 0.1, -1e17, 0.5, 1.0], [0.1, 0.2, 0.3, 0.7]):
                 X = fill(ls, vals, 0); rows = [np.array(r, dtype=dt) for r in X]
@@ -376,8 +379,10 @@ def run_c07(R, tier, rng):
         n = len(ls); nt = n >= 2 and sum(ls) > 0
         for rep in range(3 if tier != "thorough" else 8):
             dt = allk[(si + rep * 3) % len(allk)]
-            for vals_name, table in (("small", SMALL), ("extreme", EXT)):
+            INFS = {"float32": [float("inf"), 1.0, float("inf"), -float("inf"), -float("inf"), 2.0, float("inf")]}; INFS["float64"] = INFS["float32"]
+            for vals_name, table in (("small", SMALL), ("extreme", EXT), ("infinities", INFS)):
                 if vals_name == "extreme" and rep: continue
+                if vals_name == "infinities" and dt not in INFS: continue          # repeated infinities of both signs in a row (sums of them are NaN, in numpy's per-row result as well)
                 X = fill(ls, [v for v in table[dt] if v == v], si)
                 mk = lambda: RA(X, dt)
                 rows = [np.array(r, dtype=dt) for r in X]
@@ -472,13 +477,17 @@ def run_c08(R, tier, rng):
             C.cmp(f"empty_like {tagc}", "empty_like", nt, lambda: (lambda e: [np.asarray(e.lengths).tolist(), str(e.dtype)])(np.empty_like(mk())), lambda: [ls, dt])
             if True:        # also when every row is empty, or there is no row: a matrix with no columns
                 for side in ("right", "left"):
-                    fv = 7 if dt != "bool" else True
-                    m = max(ls + [0])
+                  m = max(ls + [0])
+                  # the default fill (0) as well: padding next to inf / NaN cells must be the fill value itself
+                  C.cmp(f"padded-default {side} {tagc}", "padded-default-fill/" + side, nt, lambda: (lambda p_: [kl(p_), list(p_.shape), str(p_.dtype)])(mk().as_padded_matrix(side=side)),
+                        lambda: [kl(np.array([(r + [0] * (m - len(r))) if side == "right" else ([0] * (m - len(r)) + r) for r in X], dtype=dt).reshape(n, m)), [n, m], dt],
+                        py=f"RaggedArray({X}, dtype='{dt}').as_padded_matrix(side='{side}')")
+                  for fv in ((7 if dt != "bool" else True),):
                     C.cmp(f"padded {side} {tagc}", "padded/" + side, nt, lambda: (lambda p_: [kl(p_), list(p_.shape), str(p_.dtype)])(mk().as_padded_matrix(side=side, fill_value=fv)),
                           lambda: [kl(np.array([(r + [fv] * (m - len(r))) if side == "right" else ([fv] * (m - len(r)) + r) for r in X], dtype=dt).reshape(n, m)), [n, m], dt],
                           py=f"RaggedArray({X}, dtype='{dt}').as_padded_matrix(side='{side}', fill_value={fv})")
-            C.cmp(f"nonzero {tagc}", "nonzero", nt, lambda: [kl(a) for a in np.nonzero(mk())],
-                  lambda: [[i for i, r in enumerate(X) for j, v in enumerate(r) if np.dtype(dt).type(v) != 0], [j for i, r in enumerate(X) for j, v in enumerate(r) if np.dtype(dt).type(v) != 0]],
+            C.cmp(f"nonzero {tagc}", "nonzero", nt, lambda: [kl(a) for a in np.nonzero(mk())] + [str(a.dtype) for a in np.nonzero(mk())],
+                  lambda: [[i for i, r in enumerate(X) for j, v in enumerate(r) if np.dtype(dt).type(v) != 0], [j for i, r in enumerate(X) for j, v in enumerate(r) if np.dtype(dt).type(v) != 0], "int64", "int64"],
                   py=f"np.nonzero(RaggedArray({X}, dtype='{dt}'))")
             C.cmp(f"ra.nonzero {tagc}", "nonzero", nt, lambda: [kl(a) for a in mk().nonzero()],
                   lambda: [[i for i, r in enumerate(X) for j, v in enumerate(r) if np.dtype(dt).type(v) != 0], [j for i, r in enumerate(X) for j, v in enumerate(r) if np.dtype(dt).type(v) != 0]])
@@ -538,6 +547,11 @@ def run_c08(R, tier, rng):
         st = [rng.randint(0, L) for _ in range(k)]; en = [rng.choice([rng.randint(s, L), -rng.randint(1, L)]) for s in st]
         C.cmp(f"rslice 1d {dt} {a1} {st} {en}", "ragged_slice/1d", True, lambda: ra_obs(ragged_slice(np.array(a1, dtype=dt), np.array(st), np.array(en))),
               lambda: rows_obs([np.array(a1[s:e], dtype=dt) for s, e in zip(st, en)], dt), py=f"ragged_slice(np.array({a1}, dtype='{dt}'), np.array({st}), np.array({en}))")
+        # the defaults: starts=None is "from the first element", ends=None "to the last"
+        C.cmp(f"rslice 1d ends-only {dt} {a1} {en}", "ragged_slice/1d-ends-only", True, lambda: ra_obs(ragged_slice(np.array(a1, dtype=dt), None, np.array(en))),
+              lambda: rows_obs([np.array(a1[:e], dtype=dt) for e in en], dt), py=f"ragged_slice(np.array({a1}, dtype='{dt}'), None, np.array({en}))")
+        C.cmp(f"rslice 1d starts-only {dt} {a1} {st}", "ragged_slice/1d-starts-only", True, lambda: ra_obs(ragged_slice(np.array(a1, dtype=dt), np.array(st))),
+              lambda: rows_obs([np.array(a1[s:], dtype=dt) for s in st], dt), py=f"ragged_slice(np.array({a1}, dtype='{dt}'), np.array({st}))")
         C.cmp(f"NPSArray[starts:ends] {dt} {a1} {st} {en}", "ragged_slice/NPSArray", True, lambda: ra_obs(np.array(a1, dtype=dt).view(NPSArray)[np.array(st):np.array(en)]),
               lambda: rows_obs([np.array(a1[s:e], dtype=dt) for s, e in zip(st, en)], dt))
         nr, nc = 1 + si % 3, 1 + si % 4
@@ -545,6 +559,10 @@ def run_c08(R, tier, rng):
         st = [rng.randint(0, nc) for _ in range(nr)]; en = [rng.choice([rng.randint(s, nc), -rng.randint(1, nc)]) for s in st]
         C.cmp(f"rslice 2d {dt} {a2} {st} {en}", "ragged_slice/2d", True, lambda: ra_obs(ragged_slice(np.array(a2, dtype=dt), np.array(st), np.array(en))),
               lambda: rows_obs([np.array(r[s:e], dtype=dt) for r, s, e in zip(a2, st, en)], dt), py=f"ragged_slice(np.array({a2}, dtype='{dt}'), np.array({st}), np.array({en}))")
+        C.cmp(f"rslice 2d ends-only {dt} {a2} {en}", "ragged_slice/2d-ends-only", True, lambda: ra_obs(ragged_slice(np.array(a2, dtype=dt), None, np.array(en))),
+              lambda: rows_obs([np.array(r[:e], dtype=dt) for r, e in zip(a2, en)], dt), py=f"ragged_slice(np.array({a2}, dtype='{dt}'), None, np.array({en}))")
+        C.cmp(f"rslice 2d starts-only {dt} {a2} {st}", "ragged_slice/2d-starts-only", True, lambda: ra_obs(ragged_slice(np.array(a2, dtype=dt), np.array(st))),
+              lambda: rows_obs([np.array(r[s:], dtype=dt) for r, s in zip(a2, st)], dt), py=f"ragged_slice(np.array({a2}, dtype='{dt}'), np.array({st}))")
 
 
 def ownership_stage(R, tier, rng):
@@ -623,6 +641,29 @@ def run_c09(R, tier, rng):
         exact = [sum(r[j] for r in X if len(r) > j) for j in range(m_)]
         C.cmp(f"sum(axis=0) int64 extremes {X}", "colsum/int64-extremes", True, lambda: [int(x) for x in RaggedArray(X, dtype=np.int64).sum(axis=0)], lambda: exact, py=f"RaggedArray({X}, dtype=np.int64).sum(axis=0)")
         C.cmp(f"np.sum(axis=0) int64 extremes {X}", "colsum/int64-extremes", True, lambda: [int(x) for x in np.sum(RaggedArray(X, dtype=np.int64), axis=0)], lambda: exact)
+    # more than 2**16 elements (beyond any plausible size threshold); columns with non-integer means
+    hl = [4] * 16500 + [2, 0, 7]
+    for dt in ("int64", "bool", "uint8", "int32", "float64"):
+        hv = [(70000 if isinstance(v, int) and abs(v) > 2 ** 31 else v) for v in SMALL[dt]]      # every column sum stays exactly representable
+        HX = fill(hl, hv, 1); hm = max(hl)
+        hcols = [np.array([r[j] for r in HX if len(r) > j], dtype=dt) for j in range(hm)]
+        C.cmp(f"mean(axis=0) {dt} {len(hl)} rows / {sum(hl)} elements", "colmean/huge", True, lambda: [key(float(x)) for x in RA(HX, dt).mean(axis=0)],
+              lambda: [key(float(np.mean(c_))) for c_ in hcols], py=f"RaggedArray(fill([4]*16500+[2,0,7], {hv}), dtype='{dt}').mean(axis=0)")
+        C.cmp(f"sum(axis=0) {dt} {len(hl)} rows / {sum(hl)} elements", "colsum/huge", True, lambda: [key(float(x)) for x in RA(HX, dt).sum(axis=0)],
+              lambda: [key(float(np.count_nonzero(c_) if dt == "bool" else c_.sum())) for c_ in hcols], py=f"RaggedArray(fill([4]*16500+[2,0,7], {hv}), dtype='{dt}').sum(axis=0)")
+        C.cmp(f"col_counts {dt} {len(hl)} rows", "col_counts/huge", True, lambda: [int(x) for x in RA(HX, dt).col_counts()], lambda: [len(c_) for c_ in hcols])
+        C.cmp(f"get_column_values(3) {dt} {len(hl)} rows", "get_column_values/huge", True, lambda: kl(RA(HX, dt).get_column_values(3)), lambda: kl(hcols[3]))
+    # millions of rows of a 32-bit type whose column sums pass 2**53: the sum is the exact integer (numpy's own sum of the column), not a rounded float
+    if VARIANT[0] == "fresh":
+        nrow = 2300000
+        hl2 = np.ones(nrow, dtype=np.int64); hl2[5] = 0; hl2[7] = 3; hl2[-1] = 2
+        for dt, lo in (("uint32", 2 ** 32 - 2 ** 20), ("int32", -2 ** 31)):
+            flat = (np.arange(int(hl2.sum()), dtype=np.int64) % 1000 + lo).astype(dt)
+            starts_ = np.cumsum(hl2) - hl2
+            exact = [int(flat[starts_[hl2 > j] + j].astype(object).sum()) for j in range(3)]
+            if dt == "int32" and tier != "thorough": continue
+            C.cmp(f"sum(axis=0) {dt} {nrow} rows, column sums beyond 2**53", "colsum/millions-of-rows", True, lambda: [int(x) for x in RaggedArray(flat, hl2).sum(axis=0)], lambda: exact,
+                  py=f"l = np.ones({nrow}, int); l[5] = 0; l[7] = 3; l[-1] = 2; RaggedArray((np.arange(l.sum()) % 1000 + {lo}).astype('{dt}'), l).sum(axis=0)")
     for si, ls in enumerate(sh):
         n = len(ls); nt = n >= 2
         m = max(ls)
